@@ -156,13 +156,43 @@ fn reg<const MQ: u64>(v: &mut Vec<Case>, tag: &str) {
       }); }
     { let q = q.clone(); let ops = vec![Op::VarBytes { max: 40, mq: MQ }];
       case!("gf255_decode_ct", "set_decode_ct: (ok,value) iff len==32 && LE(buf)<q else (0, zero limbs)", ops.clone(), move |inp: &[u8]| {
-        let (r, cc) = GF255::<MQ>::decode_ct(inp);
+        // in-place variant started from a non-zero previous value
+        let mut r = GF255::<MQ>::w64le(0x1234, 5, 6, 7);
+        let cc = r.set_decode_ct(inp);
+        let (r2, cc2) = GF255::<MQ>::decode_ct(inp);
+        if cc2 != cc || r2.verif_limbs() != r.verif_limbs() { return Err(format!("set_decode_ct and decode_ct disagree: {:08x}/{:08x} {:x?}/{:x?}", cc, cc2, r.verif_limbs(), r2.verif_limbs())); }
         let n = le_to_int(inp);
         if inp.len() == 32 && n < q {
             chk(cc == 0xFFFFFFFF && val(&r) == n, || format!("decode_ct(valid): cc={:08x} limbs {:x?}", cc, r.verif_limbs()))
         } else {
             chk(cc == 0 && r.verif_limbs() == [0u64; 4], || format!("decode_ct(invalid): cc={:08x} limbs {:x?}", cc, r.verif_limbs()))
         }
+      }); }
+    { let ops = vec![Op::Raw(32 * 48), Op::U32];
+      case!("gf255_lookup16_x3", "lookup16_x3: entries 3j..3j+2 for j<16, zeros otherwise (all u32 j)", ops.clone(), move |inp: &[u8]| {
+        let o = split(&ops, inp).ok_or("bad input length")?;
+        let mut tab = [GF255::<MQ>::ZERO; 48];
+        for i in 0..48 { tab[i] = el::<MQ>(&o[0][32 * i..32 * i + 32]); }
+        let j = u32of(o[1]);
+        let r = GF255::<MQ>::lookup16_x3(&tab, j);
+        for k in 0..3 {
+            let want = if j < 16 { tab[3 * j as usize + k].verif_limbs() } else { [0u64; 4] };
+            if r[k].verif_limbs() != want { return Err(format!("lookup16_x3 j={:#x} k={} got {:x?}", j, k, r[k].verif_limbs())); }
+        }
+        Ok(())
+      }); }
+    { let ops = vec![Op::Raw(32 * 64), Op::U32];
+      case!("gf255_lookup16_x4", "lookup16_x4: entries 4j..4j+3 for j<16, zeros otherwise (all u32 j)", ops.clone(), move |inp: &[u8]| {
+        let o = split(&ops, inp).ok_or("bad input length")?;
+        let mut tab = [GF255::<MQ>::ZERO; 64];
+        for i in 0..64 { tab[i] = el::<MQ>(&o[0][32 * i..32 * i + 32]); }
+        let j = u32of(o[1]);
+        let r = GF255::<MQ>::lookup16_x4(&tab, j);
+        for k in 0..4 {
+            let want = if j < 16 { tab[4 * j as usize + k].verif_limbs() } else { [0u64; 4] };
+            if r[k].verif_limbs() != want { return Err(format!("lookup16_x4 j={:#x} k={} got {:x?}", j, k, r[k].verif_limbs())); }
+        }
+        Ok(())
       }); }
     { let q = q.clone(); let ops = vec![Op::VarBytes { max: 40, mq: MQ }];
       case!("gf255_decode_opt", "decode: Some(v) iff len==32 && LE(buf)<q, v == LE(buf); encode(v) == buf", ops.clone(), move |inp: &[u8]| {
